@@ -257,7 +257,7 @@ pub fn gen_history_from(rng: &mut Rng, k: &Knobs, start: &Model) -> Vec<Op> {
                     m = cand;
                 } else {
                     cx.no_more_compact = flag_before;
-                    if k.failing_commits && !cand.g.nodes.is_empty() && rng.chance(0.4) {
+                    if k.failing_commits && !cand.g.nodes.is_empty() && rng.chance(0.15) {
                         let live: Vec<u32> = cand.g.nodes.keys().copied().collect();
                         let target = *rng.pick(&live);
                         out.push(Op::FailingTxn { ops, target });
@@ -605,7 +605,7 @@ impl Runner {
                     cand.apply(t);
                 }
                 // one value above the 1 MiB log-record limit: logging the transaction is refused
-                tx.set_node_property(*target, "k0".into(), ndb_storage::property::PropertyValue::String("x".repeat(1_200_000)));
+                tx.set_node_property(*target, "k0".into(), ndb_storage::property::PropertyValue::String("x".repeat(1_048_700)));
                 match tx.commit() {
                     Err(_) => Ok(()),
                     Ok(()) => Err("EXPECTED-FAILURE-MISSING: commit with a value above the log-record limit succeeded".into()),
